@@ -8,6 +8,10 @@
 //                         locks (depth 2-3) after that retire / tick, holds, unwinds; its own outer region is open
 //                         at its retirements (total retirements <= capacity, so a retire inside a region never
 //                         waits for its own region)
+//   mode life : the life cycle — retire while NO collector thread exists (before the first start(), between a
+//               stop() and the next start(); at most `capacity` of them, so nothing blocks), start(), a concurrent
+//               phase, stop(); 1-3 such cycles on one collector; in a third of the cases the default capacity of one
+//               slot; redundant start() on a running collector and stop() on a stopped one (both no-ops)
 //   mode wrap : capacity 1-2 with the queue's push / pop indices and slot versions preset to round 32766, so that
 //               the 16-bit slot version wraps while the queue is full (a collector batch held back by an open
 //               region + a full ring + one more retire, which must block across the wrap)
@@ -142,12 +146,27 @@ static void do_retire_at(GC& gc, int id, uint64_t e, const std::vector<int>& ope
   g_or.retire_returned[id] = 1;
   vrt_event("retire_end %d", id);
 }
+static int g_spawned = 0;   // threads created in the controlled section so far (= tid of the latest one)
+template <typename F>
+static void spawn(std::vector<std::thread>& v, F&& f) {
+  ++g_spawned;
+  v.emplace_back(std::forward<F>(f));
+}
+static void do_start(GC& gc) {
+  bool launches = !gc._gc_thread.joinable();
+  if (launches) g_or.gc_tid = ++g_spawned;
+  vrt_event("start");
+  gc.start();
+  vrt_event("start_end");
+}
 static void do_stop(GC& gc) {
+  bool running = gc._gc_thread.joinable();
   for (size_t i = 0; i < g_or.invoked.size(); ++i) g_or.returned_before_stop[i] = g_or.retire_returned[i];
   g_or.stop_called = 1;
   vrt_event("stop_begin");
   gc.stop();
   vrt_event("stop_end");
+  if (!running) return;   // stop() without a collector thread is a no-op by contract: whoever retires must start()
   for (size_t i = 0; i < g_or.invoked.size(); ++i)
     if (g_or.returned_before_stop[i] && g_or.invoked[i] != 1)
       vrt_event("ORACLE lost stop() returned, reclaimer %zu retired before stop() was invoked %d times", i, g_or.invoked[i]);
@@ -190,6 +209,101 @@ static void final_checks() {
     if (g_or.invoked[i] > 1) vrt_event("ORACLE twice reclaimer %zu invoked %d times in total", i, g_or.invoked[i]);
 }
 
+// life cycle: retire with no collector thread, start(), concurrent phase, stop(); several cycles on one collector
+static void run_life(uint64_t seed) {
+  Rng rng(seed);
+  bool default_cap = rng.below(3) == 0;
+  size_t want_cap = 1 + rng.below(8);
+  int cycles = 1 + (int)rng.below(3);
+  auto gcp = std::make_unique<GC>();
+  GC& gc = *gcp;
+  if (!default_cap) gc.set_queue_capacity(want_cap);
+  size_t cap = gc._queue.capacity();
+  struct Cycle { int pre; bool noop_stop_before; bool double_start; std::vector<RetirePlan> rplans; std::vector<RegionPlan> regions; unsigned stop_delay_us; };
+  std::vector<Cycle> plan(cycles);
+  int nids = 0, nregions = 0;
+  for (auto& cy : plan) {
+    cy.pre = (int)rng.below(std::min<size_t>(cap, 3) + 1);
+    nids += cy.pre;
+    cy.noop_stop_before = rng.below(4) == 0;
+    cy.double_start = rng.below(4) == 0;
+    int nret = (int)rng.below(3);
+    cy.rplans.resize(nret);
+    for (auto& p : cy.rplans) {
+      p.first_id = nids;
+      int nops = 1 + (int)rng.below(4);
+      for (int i = 0; i < nops; ++i) {
+        RetirePlan::Op op;
+        unsigned k = (unsigned)rng.below(10);
+        op.kind = k < 6 ? 0 : k < 8 ? 1 : 2;
+        op.n = op.kind == 2 ? 2 : 1;
+        op.pause_us = rng.below(4) == 0 ? 200 + (unsigned)rng.below(2500) : 0;
+        p.ops.push_back(op);
+        nids += op.n;
+      }
+    }
+    if (rng.below(2)) {
+      int n = 1 + (int)rng.below(2);
+      for (int i = 0; i < n; ++i) {
+        RegionPlan r;
+        r.start_us = (unsigned)rng.below(2000);
+        r.hold_us = 500 + (unsigned)rng.below(9000);
+        r.nested = false;
+        r.region = nregions++;
+        cy.regions.push_back(r);
+      }
+    }
+    cy.stop_delay_us = rng.below(3) == 0 ? 0 : (unsigned)rng.below(6000);
+  }
+  bool final_noop_stop = rng.below(2);
+  g_or.reset(nids, nregions);
+  name_all(gc);
+  auto& ep = gc.epoch();
+  vrt_trace_sleep(1);
+  vrt_begin(seed);
+  g_spawned = 0;
+  printf("RUN %lu cap=%zu gc=0 base=0 mode=life cycles=%d defaultcap=%d ids=%d regions=%d\n", (unsigned long)seed, cap, cycles,
+         (int)default_cap, nids, nregions);
+  int id = 0;
+  for (auto& cy : plan) {
+    // nobody collects: the tasks wait in the queue
+    for (int i = 0; i < cy.pre; ++i) do_retire(gc, id++);
+    if (cy.noop_stop_before) do_stop(gc);
+    do_start(gc);
+    if (cy.double_start) do_start(gc);
+    std::vector<std::thread> regs, rets;
+    if (!cy.regions.empty())
+      spawn(regs, [&] {
+        for (auto& r : cy.regions) {
+          if (r.start_us) usleep(r.start_us);
+          unsigned slot = ThreadId::current_thread_id<Epoch>().value;
+          vrt_event("region_enter %u", slot);
+          ep.lock();
+          g_or.region_open[r.region] = 1;
+          vrt_event("region_open %u", slot);
+          if (r.hold_us) usleep(r.hold_us);
+          g_or.region_open[r.region] = 0;
+          vrt_event("region_close %u", slot);
+          ep.unlock();
+        }
+      });
+    for (auto& p : cy.rplans) {
+      spawn(rets, [&, pp = &p] { run_retirer(gc, *pp); });
+      for (auto& op : p.ops) id += op.n;
+    }
+    for (auto& t : rets) t.join();
+    if (cy.stop_delay_us) usleep(cy.stop_delay_us);
+    do_stop(gc);
+    for (auto& t : regs) t.join();
+  }
+  if (final_noop_stop) do_stop(gc);
+  final_checks();
+  vrt_event("stats steps %lu switches %lu races %lu", vrt_steps(), vrt_switches(), vrt_races());
+  vrt_end();
+  vrt_dump(stdout);
+  gcp.reset();
+}
+
 static void run_case(uint64_t seed, const std::string& mode) {
   Rng rng(seed);
   bool big = mode == "big";
@@ -197,6 +311,7 @@ static void run_case(uint64_t seed, const std::string& mode) {
   bool wrap = mode == "wrap";
   bool acc_style = mode == "acc" || mode == "rr-acc";
   bool fix = mode == "fix-open-stop";
+  if (mode == "life") { run_life(seed); return; }
   size_t want_cap = big ? (rng.below(2) ? 128 : 256) : 1 + rng.below(8);
   int nret = big ? 1 + (int)rng.below(2) : 1 + (int)rng.below(3);
   int nreg_threads = big ? (int)rng.below(2) : (int)rng.below(3);
@@ -305,16 +420,16 @@ static void run_case(uint64_t seed, const std::string& mode) {
 
   vrt_trace_sleep(1);
   vrt_begin(seed);
-  g_or.gc_tid = 1;
+  g_spawned = 0;
   printf("RUN %lu cap=%zu gc=1 base=%zu mode=%s retirers=%d regionthreads=%d readerretirers=%d ids=%d regions=%d\n", (unsigned long)seed,
          gc._queue.capacity(), base, mode.c_str(), nret, nreg_threads, nrr, nids, nregions);
-  gc.start();   // first thread created in the section: tid 1
+  do_start(gc);   // first thread created in the section: tid 1
   std::vector<std::thread> reg_threads, ret_threads, closers;
   std::vector<std::unique_ptr<std::atomic<int>>> handoff;
   for (int i = 0; i < nregions; ++i) handoff.emplace_back(new std::atomic<int>(0));
   for (int g = 0; g < nreg_threads; ++g) {
     if (!acc_style) {
-      reg_threads.emplace_back([&, g] {
+      spawn(reg_threads, [&, g] {
         for (auto& r : gplans[g]) {
           if (r.start_us) usleep(r.start_us);
           unsigned slot = ThreadId::current_thread_id<Epoch>().value;
@@ -332,7 +447,7 @@ static void run_case(uint64_t seed, const std::string& mode) {
       });
     } else {
       // opener
-      reg_threads.emplace_back([&, g] {
+      spawn(reg_threads, [&, g] {
         for (auto& r : gplans[g]) {
           if (r.start_us) usleep(r.start_us);
           unsigned slot = (unsigned)accs[g]._index;
@@ -346,7 +461,7 @@ static void run_case(uint64_t seed, const std::string& mode) {
         }
       });
       // closer: another thread ends the region
-      closers.emplace_back([&, g] {
+      spawn(closers, [&, g] {
         for (auto& r : gplans[g]) {
           while (handoff[r.region]->load(std::memory_order_acquire) != 1) usleep(300);
           if (r.hold_us) usleep(r.hold_us);
@@ -361,7 +476,7 @@ static void run_case(uint64_t seed, const std::string& mode) {
   }
   // reader-retirers: retire inside their own region, then nest
   for (int q = 0; q < nrr; ++q) {
-    ret_threads.emplace_back([&, q] {
+    spawn(ret_threads, [&, q] {
       Epoch::Accessor* acc = acc_style ? &accs[nreg_threads + q] : nullptr;
       auto lock = [&] { if (acc) acc->lock(); else ep.lock(); };
       auto unlock = [&] { if (acc) acc->unlock(); else ep.unlock(); };
@@ -386,7 +501,7 @@ static void run_case(uint64_t seed, const std::string& mode) {
       }
     });
   }
-  for (int t = 0; t < nret; ++t) ret_threads.emplace_back([&, t] { run_retirer(gc, rplans[t]); });
+  for (int t = 0; t < nret; ++t) spawn(ret_threads, [&, t] { run_retirer(gc, rplans[t]); });
   for (auto& t : ret_threads) t.join();
   if (stop_delay_us) usleep(stop_delay_us);
   do_stop(gc);
@@ -404,7 +519,7 @@ int main(int argc, char** argv) {
   std::string mode = argc > 1 ? argv[1] : "tl";
   uint64_t seed0 = argc > 2 ? strtoull(argv[2], 0, 10) : 1;
   int nruns = argc > 3 ? atoi(argv[3]) : 1;
-  if (mode != "tl" && mode != "acc" && mode != "big" && mode != "fix-open-stop" && mode != "rr-tl" && mode != "rr-acc" && mode != "wrap") return 2;
+  if (mode != "tl" && mode != "acc" && mode != "big" && mode != "fix-open-stop" && mode != "rr-tl" && mode != "rr-acc" && mode != "wrap" && mode != "life") return 2;
   for (int i = 0; i < nruns; ++i) run_case(seed0 + i, mode);
   return 0;
 }
